@@ -374,6 +374,7 @@ func (d *D) runCorruption(sc *core.Scenario, ctx *core.Ctx, allBytes bool) *core
 	cs := corruptions(sealedValue, allBytes)
 	stillOriginal := 0
 	for _, c := range cs {
+		core.Heartbeat()
 		damaged := apply(sealedValue, c)
 		if damaged == sealedValue {
 			continue
